@@ -228,8 +228,14 @@ def main():
                     d2 = tempfile.mkdtemp(prefix="ok", dir=tmp)
                     argv2 = write_inputs(d2, case)
                     r2 = subprocess.run([PY, "-m", "json_to_models"] + argv2, capture_output=True, cwd=d2, env=child_env(), timeout=300)
-                    mask = lambda b: re.sub(rb"(generated by json2python-models v\S+ at )[^\n]*", rb"\1<t>", re.sub(rb"command: [^\n]*", b"command: <c>", b))
-                    if after is None or mask(after) + b"\n" != mask(r2.stdout):
+                    def body_of(b):
+                        # the text after the header statement (the header carries a timestamp and the command line)
+                        from .c16 import split_header
+                        try:
+                            return split_header(b.decode("utf-8"))[1]
+                        except Exception:
+                            return None
+                    if after is None or body_of(after) is None or body_of(r2.stdout) not in (body_of(after) + "\n", body_of(after)):
                         wit.append({"property": PROP, "mechanism": "output-file-incomplete",
                                     "msg": f"argv {argv}: -o file ({None if after is None else len(after)} bytes) differs from the printed text ({len(r2.stdout)} bytes)"})
                     opens = [e for e in trace if e.get("ev") in ("open_w", "os.rename", "os.replace")]  # direct write or temp-file-then-rename
